@@ -682,6 +682,27 @@ pub fn families(args: &[String]) {
                     run(json!({"op": "serde_any", "ty": ty, "s": chars(&s)}), &mut w, &mut total, &mut classes, &mut samples);
                 }
             }
+            "parse_any" | "format_any" | "rfc_any" | "fromstr_any" | "serde_any" | "cron_any" => {
+                // a single case written out by the specification
+                run(f.clone(), &mut w, &mut total, &mut classes, &mut samples);
+            }
+            "family_long" => {
+                let ty = gs(f, "ty");
+                let val = match ty {
+                    "date" => json!({"ty": "date", "dn": 738_276}),
+                    "time" => json!({"ty": "time", "sod": 45_296, "ns": 123_456_789, "off": 3600}),
+                    _ => json!({"ty": "dt", "dn": 738_276, "sod": 45_296, "ns": 123_456_789, "off": -19_800}),
+                };
+                for sym in f["syms"].as_array().unwrap() {
+                    for len in f["lens"].as_array().unwrap() {
+                        let n = len.as_u64().unwrap() as usize;
+                        let p = sym.as_str().unwrap().repeat(n);
+                        run(json!({"op": "format_any", "val": val, "p": chars(&p)}), &mut w, &mut total, &mut classes, &mut samples);
+                        run(json!({"op": "parse_any", "ty": ty, "s": chars("2022"), "p": chars(&p)}), &mut w, &mut total, &mut classes, &mut samples);
+                        run(json!({"op": "parse_any", "ty": ty, "s": chars(&"1".repeat(n)), "p": chars(&p)}), &mut w, &mut total, &mut classes, &mut samples);
+                    }
+                }
+            }
             "family_nines" => {
                 let ty = gs(f, "ty");
                 let p = unchars(&f["p"]);
